@@ -227,3 +227,30 @@ Proof.
   eapply (read_full_error c_clientBufioSize); [exact Hn|exact Hm|exact HR|lia].
 Qed.
 
+
+(** with a buffer at least as large as the frame-length limit, no byte
+    string makes the demultiplexer run out of buffer space (the panic in
+    MultiplexReader.Read) *)
+Lemma mux_read_no_crash cap s : c_maxMessageSize <= cap -> mux_read cap s <> RCrash.
+Proof.
+  intros Hc. unfold mux_read, read_msg.
+  destruct (rdu32 s) as [[hd r]|]; [|discriminate].
+  destruct (c_maxMessageSize <? hd mod 16777216) eqn:L; [discriminate|].
+  destruct (take (hd mod 16777216) r) as [[p rest]|] eqn:T; [|discriminate].
+  destruct (_ =? c_MsgError); [discriminate|].
+  destruct (_ =? c_MsgInfo); [discriminate|].
+  destruct (_ =? c_MsgData); [|discriminate].
+  apply take_some in T. destruct T as [_ Lp]. apply Z.ltb_ge in L.
+  destruct (cap <? lenZ p) eqn:C; [|discriminate]. apply Z.ltb_lt in C. lia.
+Qed.
+
+Lemma bufio_read_no_crash bsz n st : c_maxMessageSize <= bsz -> bufio_read bsz n st <> BCrash.
+Proof.
+  intros Hc. unfold bufio_read. destruct (bbuf st); [|discriminate].
+  set (cap := if bsz <=? n then n else bsz).
+  assert (Hcap : c_maxMessageSize <= cap).
+  { unfold cap. destruct (bsz <=? n) eqn:E; [apply Z.leb_le in E; lia|exact Hc]. }
+  pose proof (mux_read_no_crash cap (bsrc st) Hcap) as N.
+  destruct (mux_read cap (bsrc st)); try discriminate; try (destruct (bsz <=? n); discriminate).
+  contradiction.
+Qed.
